@@ -105,6 +105,8 @@ type Obligation struct {
 	Pos    token.Position
 	Cover  bool // must be satisfiable (vacuity guard)
 	MustFail bool // must NOT be provable (vacuity guard over all facts)
+	ThoroughOnly bool // solved in the thorough tier only (deferred in quick)
+	Splits []T    // optional case split of PC (disjunction equals PC): each case may be proved separately
 	Detail string
 	// model query support: values to print when sat
 	Watch []WatchTerm
@@ -154,6 +156,115 @@ type VC struct {
 	factSyms map[int][]string
 	mu       sync.Mutex
 	defs     map[string]string
+	factGuard map[int]string     // fact index -> path condition guarding it
+	factDef   map[int]string     // fact index -> name it defines (definitional equalities)
+	knownAt  map[string][]string // fact -> path conditions under which it was assumed
+	pcParent map[string][]string // pc -> path conditions it implies
+	pcMemo   map[string]map[string]bool
+	pcSplits map[string][]T
+}
+
+// splitsFor finds a case split for pc: the disjuncts of the nearest merged path condition it implies.
+func (vc *VC) splitsFor(pc T) []T {
+	cur := pc
+	for depth := 0; depth < 6; depth++ {
+		if sp, ok := vc.pcSplits[cur]; ok {
+			return sp
+		}
+		ps := vc.pcParent[cur]
+		if len(ps) == 0 {
+			return nil
+		}
+		// follow the first parent that has splits, else the first parent
+		next := ps[0]
+		for _, p := range ps {
+			if _, ok := vc.pcSplits[p]; ok {
+				next = p
+				break
+			}
+		}
+		cur = next
+	}
+	return nil
+}
+
+// pcImplies records that path condition pc implies parent.
+func (vc *VC) pcImplies(pc, parent T) {
+	if pc == parent || pc == True || pc == False {
+		return
+	}
+	if vc.pcParent == nil {
+		vc.pcParent = map[string][]string{}
+	}
+	for _, p := range vc.pcParent[pc] {
+		if p == parent {
+			return
+		}
+	}
+	vc.pcParent[pc] = append(vc.pcParent[pc], parent)
+	vc.pcMemo = nil
+}
+
+func (vc *VC) impliedSet(pc T) map[string]bool {
+	if vc.pcMemo == nil {
+		vc.pcMemo = map[string]map[string]bool{}
+	}
+	if m, ok := vc.pcMemo[pc]; ok {
+		return m
+	}
+	m := map[string]bool{pc: true, True: true}
+	vc.pcMemo[pc] = m
+	for _, p := range vc.pcParent[pc] {
+		for q := range vc.impliedSet(p) {
+			m[q] = true
+		}
+	}
+	if strings.HasPrefix(pc, "(or ") {
+		// a disjunction implies what every disjunct implies
+		args := splitArgs(pc)
+		var common map[string]bool
+		for _, a := range args {
+			s := vc.impliedSet(a)
+			if common == nil {
+				common = map[string]bool{}
+				for q := range s {
+					common[q] = true
+				}
+				continue
+			}
+			for q := range common {
+				if !s[q] {
+					delete(common, q)
+				}
+			}
+		}
+		for q := range common {
+			m[q] = true
+		}
+	}
+	if strings.HasPrefix(pc, "(and ") {
+		for _, a := range splitArgs(pc) {
+			for q := range vc.impliedSet(a) {
+				m[q] = true
+			}
+		}
+	}
+	return m
+}
+
+// knownUnder reports whether goal was assumed under a path condition implied by pc.
+func (vc *VC) knownUnder(pc, goal T) bool {
+	pcs, ok := vc.knownAt[goal]
+	if !ok {
+		return false
+	}
+	imp := vc.impliedSet(pc)
+	for _, p := range pcs {
+		if imp[p] {
+			return true
+		}
+	}
+	return false
 }
 
 func NewVC(e *Engine, root *ssa.Function) *VC {
@@ -195,9 +306,21 @@ func (vc *VC) define(hint, sort string, t T) T {
 		return t
 	}
 	n := vc.fresh(hint, sort)
+	if vc.factDef == nil {
+		vc.factDef = map[int]string{}
+	}
+	vc.factDef[len(vc.facts)] = n
 	vc.facts = append(vc.facts, "(assert (= "+n+" "+t+"))")
 	if strings.HasPrefix(t, "(store ") {
 		vc.defs[n] = t
+	}
+	if sort == SortBool {
+		vc.pcImplies(n, t)
+		if strings.HasPrefix(t, "(and ") {
+			for _, a := range splitArgs(t) {
+				vc.pcImplies(n, a)
+			}
+		}
 	}
 	return n
 }
@@ -206,6 +329,18 @@ func (vc *VC) assume(pc, fact T) {
 	f := Imp(pc, fact)
 	if f == True {
 		return
+	}
+	if vc.knownAt == nil {
+		vc.knownAt = map[string][]string{}
+	}
+	if len(fact) < 4000 {
+		vc.knownAt[fact] = append(vc.knownAt[fact], pc)
+	}
+	if vc.factGuard == nil {
+		vc.factGuard = map[int]string{}
+	}
+	if pc != True {
+		vc.factGuard[len(vc.facts)] = pc
 	}
 	vc.facts = append(vc.facts, "(assert "+f+")")
 }
@@ -226,6 +361,24 @@ func (vc *VC) oblige(kind, name string, tags []string, pc, goal T, pos token.Pos
 		name = fmt.Sprintf("%s#%d", name, c)
 	}
 	o := &Obligation{Name: name, Kind: kind, Func: vc.RootKey, Tags: tags, PC: pc, Goal: goal, NDecl: len(vc.decls), NFact: len(vc.facts), Detail: detail}
+	if containsStr(tags, "thorough") {
+		o.ThoroughOnly = true
+	}
+	if vc.RootFC != nil {
+		for _, c := range vc.RootFC.Clauses {
+			if c.Kind == "thorough" && c.Callee != "" && strings.Contains(name, c.Callee) {
+				o.ThoroughOnly = true
+			}
+		}
+	}
+	if sp := vc.splitsFor(pc); len(sp) > 1 {
+		o.Splits = sp
+	}
+	if vc.knownUnder(pc, goal) {
+		// literally among the facts already assumed under a path condition that pc implies
+		o.Goal = True
+		o.Detail += " [syntactically known]"
+	}
 	if pos.IsValid() {
 		o.Pos = vc.E.Fset.Position(pos)
 	}
@@ -284,11 +437,31 @@ func (vc *VC) sliceFacts(o *Obligation) []bool {
 		}
 	}
 	inc := make([]bool, o.NFact)
+	var imp map[string]bool
+	if guardFilter {
+		imp = vc.impliedSet(o.PC)
+	}
 	changed := true
 	for changed {
 		changed = false
 		for i := 0; i < o.NFact; i++ {
 			if inc[i] {
+				continue
+			}
+			if imp != nil {
+				if g, ok := vc.factGuard[i]; ok && !imp[g] {
+					continue
+				}
+			}
+			if name, isDef := vc.factDef[i]; isDef {
+				// definitions are followed from the defined name only
+				if rel[name] {
+					inc[i] = true
+					changed = true
+					for _, s := range vc.factSymbols(i) {
+						rel[s] = true
+					}
+				}
 				continue
 			}
 			syms := vc.factSymbols(i)
@@ -311,6 +484,39 @@ func (vc *VC) sliceFacts(o *Obligation) []bool {
 	return inc
 }
 
+// BatchScript renders one incremental script for several obligations that share the same prefix and path condition.
+func (vc *VC) BatchScript(os []*Obligation) string {
+	o := os[0]
+	vc.mu.Lock()
+	imp := vc.impliedSet(o.PC)
+	vc.mu.Unlock()
+	var b strings.Builder
+	b.WriteString("(set-logic ALL)\n")
+	for _, d := range vc.decls[:o.NDecl] {
+		b.WriteString(d)
+		b.WriteByte('\n')
+	}
+	seen := map[string]bool{}
+	for fi, f := range vc.facts[:o.NFact] {
+		if g, ok := vc.factGuard[fi]; ok && !imp[g] {
+			continue
+		}
+		if seen[f] {
+			continue
+		}
+		seen[f] = true
+		b.WriteString(f)
+		b.WriteByte('\n')
+	}
+	if o.PC != True {
+		b.WriteString("(assert " + o.PC + ")\n")
+	}
+	for _, x := range os {
+		b.WriteString("(push 1)\n(assert (not " + x.Goal + "))\n(check-sat)\n(pop 1)\n")
+	}
+	return b.String()
+}
+
 // Script renders the SMT-LIB2 script of an obligation.
 func (vc *VC) Script(o *Obligation, withModel bool) string {
 	return vc.ScriptOpt(o, withModel, false)
@@ -320,6 +526,15 @@ func (vc *VC) ScriptOpt(o *Obligation, withModel, sliced bool) string {
 	var inc []bool
 	if sliced {
 		inc = vc.sliceFacts(o)
+		// facts guarded by a path condition that the obligation's path does not imply cannot take part in its proof
+		vc.mu.Lock()
+		imp := vc.impliedSet(o.PC)
+		for i := 0; i < o.NFact; i++ {
+			if g, ok := vc.factGuard[i]; ok && inc[i] && !imp[g] && guardFilter {
+				inc[i] = false
+			}
+		}
+		vc.mu.Unlock()
 	}
 	var b strings.Builder
 	if withModel {
